@@ -62,6 +62,8 @@ def run(res, tier, seed, replay):
         ("method whose path segments spell the prefix of an existing path", "GET /petstore/{code}\n  200 any\n", ["http GET /petstore/{code}"], ["@petstore"]),
         ("method whose first segment extends an existing first segment", "GET /catsitters\n  200 any\n", ["http GET /catsitters"], ["@catsitters"]),
         ("method whose first segment is a prefix of an existing one", "DELETE /cat\n  204 any\n", ["http DELETE /cat"], ["@cat"]),
+        ("TAG whose title is spelled like the title of an automatic path tag", "TAG @archive // /cats\n", [], ["@archive"]),
+        ("TAG named like nothing, titled like a type", "TAG @other // @pet\n", [], ["@other"]),
         ("type inheriting from @flags and @petKey", "TYPE @fresh\n  { // {allOf: [\"@flags\", \"@petKey\"]}\n    \"z\": 1\n  }\n", [], []),
         ("JSON-RPC method using the types", "URL /zebras\n  Protocol json-rpc-2.0\n  Method feed\n    Params\n      @flags\n    Result\n      [@pet]\n", ["json-rpc-2.0 feed /zebras"], ["@zebras"]),
     ]
